@@ -42,6 +42,7 @@ import (
 	"github.com/cometbft/cometbft/libs/log"
 	"github.com/cosmos/cosmos-sdk/crypto/keys/secp256k1"
 	"github.com/cosmos/cosmos-sdk/testutil/sims"
+	"github.com/cosmos/cosmos-sdk/store/rootmulti"
 	sdk "github.com/cosmos/cosmos-sdk/types"
 	banktypes "github.com/cosmos/cosmos-sdk/x/bank/types"
 	gethcommon "github.com/ethereum/go-ethereum/common"
@@ -510,6 +511,16 @@ func runReplica(t *testing.T, in *c09Input, withQueries bool) runOut {
 	}
 	_, h := c.EndBlock()
 	out.hash = hex.EncodeToString(h)
+	if os.Getenv("VERIF_C09_DEBUG") == "3" {
+		fmt.Printf("   cms type %T\n", c.App.CommitMultiStore())
+		if rs, ok := c.App.CommitMultiStore().(*rootmulti.Store); ok {
+			if ci, err := rs.GetCommitInfo(rs.LatestVersion()); err == nil {
+				for _, si := range ci.StoreInfos {
+					fmt.Printf("   store(with=%v) %s %x\n", withQueries, si.Name, si.CommitId.Hash)
+				}
+			}
+		}
+	}
 	if in.Point == "interblock" {
 		inject()
 	}
